@@ -400,12 +400,16 @@ func (c *Checker) CheckSource(sourceName string, source string) (compiler.Compil
 	c.macroChecks = nil
 	c.signatureChecks = ds.NewOrderedMap[string, *[]signatureCheckEntry]()
 	c.setDefinedMacros(false)
+	prevCompiler := c.compiler
 	compiler := c.CheckProgram(ast)
 
 	if c.Errors.IsFailure() {
 		// restore the previous global environment if the code
 		// did not compile
 		c.setRuntimeGlobalEnv(envCopy)
+		// a failure can leave a sub-compiler (eg. the one for namespace definitions)
+		// as the current one, the next input has to continue from the last main compiler
+		c.compiler = prevCompiler
 		c.localEnvs = localEnvsCopy
 		c.constantScopes = constantScopesCopy
 		c.methodScopes = methodScopesCopy
